@@ -275,11 +275,11 @@ func init() {
 		}), Replay: replayC14})
 	registerCheck(&CheckDef{Prop: "C04", Level: "model_checking", Technique: tE1,
 		Quick:       []Run{{Scenario: "si-basic", Depth: 6, MapModes: []int{1}}, {Scenario: "gang-si-Soft", Depth: 6, MapModes: []int{1}}, {Scenario: "gang-si-Hard", Depth: 5, MapModes: []int{1}}, {Scenario: "reserve-si", Depth: 6, MapModes: []int{1}}, {Scenario: "gang-si-same", Depth: 6, MapModes: []int{1}}, {Scenario: "reserve-bind-si", Depth: 6, MapModes: []int{1}}, {Scenario: "gang-si-reversed", Depth: 7, MapModes: []int{1}}},
-		Thorough:    []Run{{Scenario: "gang-si-reversed", Depth: 9, MapModes: []int{1}}, {Scenario: "gang-si-same", Depth: 9, MapModes: []int{1}}, {Scenario: "reserve-bind-si", Depth: 9, MapModes: []int{1, 2}}, {Scenario: "si-basic", Depth: 8, MapModes: []int{1, 2}}, {Scenario: "gang-si-Soft", Depth: 8, MapModes: []int{1, 2}}, {Scenario: "gang-si-Hard", Depth: 8, MapModes: []int{1}}, {Scenario: "reserve-si", Depth: 7, MapModes: []int{1}}},
+		Thorough:    []Run{{Scenario: "gang-si-reversed", Depth: 10, MapModes: []int{1}}, {Scenario: "gang-si-same", Depth: 10, MapModes: []int{1}}, {Scenario: "reserve-bind-si", Depth: 10, MapModes: []int{1, 2}}, {Scenario: "si-basic", Depth: 9, MapModes: []int{1, 2}}, {Scenario: "gang-si-Soft", Depth: 9, MapModes: []int{1, 2}}, {Scenario: "gang-si-Hard", Depth: 9, MapModes: []int{1}}, {Scenario: "reserve-si", Depth: 8, MapModes: []int{1}}},
 		QuickBudget: 150 * time.Second, ThoroughBudget: 12 * time.Minute})
 	registerCheck(&CheckDef{Prop: "C06", Level: "model_checking", Technique: tE1,
 		Quick:       []Run{{Scenario: "gang-Soft", Depth: 6, MapModes: []int{1}}, {Scenario: "gang-Hard", Depth: 6, MapModes: []int{1}}, {Scenario: "gang-sparse", Depth: 6, MapModes: []int{1}}},
-		Thorough:    []Run{{Scenario: "gang-sparse", Depth: 9, MapModes: []int{1}}, {Scenario: "gang-Soft", Depth: 9, MapModes: []int{1, 2}}, {Scenario: "gang-Hard", Depth: 9, MapModes: []int{1, 2}}},
+		Thorough:    []Run{{Scenario: "gang-sparse", Depth: 10, MapModes: []int{1}}, {Scenario: "gang-Soft", Depth: 10, MapModes: []int{1, 2}}, {Scenario: "gang-Hard", Depth: 10, MapModes: []int{1, 2}}},
 		QuickBudget: 150 * time.Second, ThoroughBudget: 12 * time.Minute})
 	registerCheck(&CheckDef{Prop: "C09", Level: "model_checking", Technique: tE1,
 		Quick:       []Run{{Scenario: "reserve", Depth: 7, MapModes: []int{1}}, {Scenario: "reserve-bind", Depth: 6, MapModes: []int{1}}, {Scenario: "reserve-two", Depth: 6, MapModes: []int{1}}},
@@ -299,6 +299,6 @@ func init() {
 		}), Replay: replayC14})
 	registerCheck(&CheckDef{Prop: "C11", Level: "model_checking", Technique: tE1,
 		Quick:       []Run{{Scenario: "maxapps", Depth: 7, MapModes: []int{1}}, {Scenario: "maxapps-restart", Depth: 8, MapModes: []int{1}}},
-		Thorough:    []Run{{Scenario: "maxapps-restart", Depth: 11, MapModes: []int{1}}, {Scenario: "maxapps", Depth: 9, MapModes: []int{1, 2}}},
+		Thorough:    []Run{{Scenario: "maxapps-restart", Depth: 12, MapModes: []int{1}}, {Scenario: "maxapps", Depth: 10, MapModes: []int{1, 2}}},
 		QuickBudget: 150 * time.Second, ThoroughBudget: 12 * time.Minute})
 }
